@@ -371,7 +371,20 @@ func (l *Lexer) Split() []*Token {
 		}
 		prev = char
 	}
-	if tokLen > 0 {
+	if strStart {
+		// Unterminated literal: keep its content as a literal token instead
+		// of re-reading it as a word positioned at the quote
+		curr = l.Query[tokStart : tokStart+min(tokLen, l.Length-tokStart)]
+		token := &Token{
+			Tp:   STRING,
+			Data: curr,
+			Pos:  tokStartPos,
+		}
+		if strStartChar == '`' {
+			token.Tp = NAME
+		}
+		ret = append(ret, token)
+	} else if tokLen > 0 {
 		curr = l.Query[tokStart : tokStart+min(tokLen, l.Length-tokStart)]
 		if token := buildToken(curr, tokStartPos); token != nil {
 			ret = append(ret, token)
